@@ -132,11 +132,13 @@ pub fn to_ts_ident(ident: &Ident) -> String {
 /// If the name contains special characters or if its first character
 /// is a number it will be wrapped in quotes.
 pub fn raw_name_to_ts_field(value: String) -> String {
-    // letters, ASCII digits, `_` and `$`: other numeric characters (`²`, `①`, `½`) are
-    // alphanumeric for Unicode but cannot be part of a TypeScript identifier
+    // ASCII letters and digits, `_` and `$`. Which other characters may appear in a TypeScript
+    // identifier is a Unicode property std does not offer (`²`, `Ⓐ` or a leading combining mark
+    // are alphanumeric / alphabetic and still no identifier characters), and a quoted name is
+    // always right
     let valid_chars = value
         .chars()
-        .all(|c| c.is_alphabetic() || c.is_ascii_digit() || c == '_' || c == '$');
+        .all(|c| c.is_ascii_alphanumeric() || c == '_' || c == '$');
 
     let does_not_start_with_digit = value
         .chars()
